@@ -70,14 +70,10 @@ def check_task_progress(ctx, rule, u, only=None):
 def run(ctx):
     ctx.explanation = ('Static clauses: (a) in __parsec_task_progress every path classified by the switch labels taken — AGAIN (from prepare_input or the hook) re-schedules the same task exactly once at distance+1 and never '
                        'completes it; the hook-AGAIN path marks STATUS_HOOK first; DONE completes exactly once and does not re-schedule; ASYNC does neither; execute only after prepare DONE. '
-                       '(b) generated chunked startup code: see the generated-code rules (R16.b) when the PTG corpus is available.')
+                       '(b) on the startup functions emitted by a parsec-ptgpp rebuilt from the current sources for the corpus (JDFs of the build + /verif/corpus): the enumeration state lives in the task (this_task->locals) and is re-read on entry, the resume label chain ends right after the generated instance inside the innermost loop, the chunk is scheduled before AGAIN is returned.')
     ctx.not_decided = 'behaviour for all chunk parameters; how many times a body asks to be re-run.'
     u = ctx.extract('parsec/scheduling.c')
     ra = ctx.rule('R16.a', '__parsec_task_progress: AGAIN/DONE/ASYNC path obligations', floor=6)
     check_task_progress(ctx, ra, u)
-    try:
-        from rules import gen
-    except ImportError:
-        gen = None
-    if gen is not None and hasattr(gen, 'check_R16b'):
-        gen.check_R16b(ctx)
+    from rules import gen16
+    gen16.check_R16b(ctx)
